@@ -143,6 +143,9 @@ pub fn c10(out: &mut Out, ex: &mut Exec, seed: u64, thorough: bool) {
             let mut v = base_setup(&format!("{id}{tag}"), false, id % 2 == 0, &prog, &kb);
             // every fifth case runs with ignore_privilege: entry and RTI must still switch stacks by the PSR alone
             if id % 5 == 4 { v[1] = format!("sim new 0 0 {} 1 0000", (id % 2 == 0) as u8); }
+            // every seventh case the user stack pointer is (partly) uninitialised: entry and RTI must hand the very same
+            // word (value and initialisation mask) back to the interrupted program
+            if id % 7 == 3 { let k = v.iter().position(|l| l.starts_with("sim rawreg 6")).unwrap(); v[k] = format!("sim rawreg 6 fe00 {}", if id % 2 == 0 { "0000" } else { "0ff0" }); }
             v.push(h.rawmem());
             v.push(format!("sim rawmem 0181 {:04x}/ffff {:04x}/ffff {:04x}/ffff", h_cnt, h_rti, h_trp));
             v.push(format!("sim rawmem 0030 {:04x}/ffff", h_rti));
